@@ -123,7 +123,7 @@ def small_pool(fmt, n=30):
     return pool_fp(fmt, "quick")[:n]
 
 
-def closure_pool(fmt, n_extra=24):
+def closure_pool(fmt, n_extra=16):
     """full pool + a deterministic sample of the results of the quick pool's own operations (one closure level).
     The results are computed with Python floats: they are only *operands* for further events."""
     base = pool_fp(fmt, "full")
